@@ -357,7 +357,10 @@ def receive_rules_and_counters(b):
     b.set(sw, "table", b.raw_new(T))
     calls["pox.openflow.flow_table:FlowTable.entry_for_packet"] = CallSpec("contract", returns=lambda I, st, a, k: None)
     calls[SW + "SoftwareSwitchBase._buffer_packet"] = CallSpec("contract", ghost=note("buffer"), returns=lambda I, st, a, k: 7)
-    calls[SW + "SoftwareSwitchBase.send_packet_in"] = CallSpec("opaque", ghost=note("packet_in"))
+    def note_pin(I, st, fn, args, kws):
+      st.ghost["log"] = tuple(st.ghost["log"]) + ("packet_in",)
+      st.ghost["pin"] = (tuple(args[1:]), dict(kws))
+    calls[SW + "SoftwareSwitchBase.send_packet_in"] = CallSpec("opaque", ghost=note_pin)
     import pox.openflow.flow_table as ftm
     b.set(sw, "table", b.raw_new(ftm.FlowTable, _table=b.list([])))
   else:
@@ -365,10 +368,19 @@ def receive_rules_and_counters(b):
     import pox.openflow.flow_table as ftm
     b.set(sw, "table", ftm.FlowTable())
     b.set(sw, "_buffer_packet", lambda packet, in_port=None: (log.append("buffer"), 7)[1])
-    b.set(sw, "send_packet_in", lambda *a, **k: log.append("packet_in"))
+    pin_native = []
+    b.set(sw, "send_packet_in", lambda *a, **k: (log.append("packet_in"), pin_native.append((a, k)))[0])
     table_calls.append(log)
   def logged():
     return list(G.get("log") or ()) if b.mode == "sym" else list(table_calls[0])
+  def pin_ok():
+    a, kw = G.get("pin") if b.mode == "sym" else pin_native[-1]
+    def arg(i, name):
+      return kw[name] if name in kw else a[i]
+    return arg(0, "in_port") == in_port and arg(1, "buffer_id") == 7 and arg(2, "packet") == wire \
+      and arg(99, "reason") == of.OFPR_NO_MATCH and arg(99, "data_length") == sw_miss_send_len()
+  def sw_miss_send_len():
+    return sw.miss_send_len
   def port(i):
     return [p for p in info if p["no"] == i]
   def accepted():
@@ -382,6 +394,10 @@ def receive_rules_and_counters(b):
     "a_miss_is_buffered_and_sent_to_the_controller_unless_packet_in_is_disabled":
       lambda res: logged() == (["buffer", "packet_in"] if (accepted() and port(in_port)[0]["cb"][6] == 0) else []),
     "nothing_is_emitted_on_a_miss": lambda res: emitted(b) == [],
+    # (added 2026-09-25 after seeded change C18_9 cut the frame at the call site and dropped data_length: the packet-in then
+    # reported the truncated length as the frame's total length)
+    "the_packet_in_of_a_miss_is_given_the_whole_frame_the_buffer_id_and_the_miss_send_len":
+      lambda res: "packet_in" not in logged() or pin_ok(),
   })
 receive_rules_and_counters.bound = "three ports; empty flow table (lookup is C03)"
 
@@ -395,3 +411,26 @@ unit(P, target=_R13.SW + "SoftwareSwitchBase._rx_port_mod / _set_port_config_bit
      name="port_mod_sets_exactly_the_masked_config_bits")(_R13.port_mod)
 for _u in _R13.PORT_MOD_BIT_UNITS:
   unit(P, target=_R13.SW + "SoftwareSwitchBase._rx_port_mod / _set_port_config_bit, ofp_phy_port.set_config")(_u)
+
+
+# output to OFPP_CONTROLLER hands the (rewritten) frame to send_packet_in with the action's max_len as data_length: what that
+# packet-in carries - exactly max_len bytes of a buffered frame, max_len = 0 included - is the C18 unit, an obligation of C12
+# too (seeded change C12_8 treated a limit of 0 as 'no limit')
+import contracts.c18_buffers as _B18
+unit(P, target=_B18.SW + "SoftwareSwitchBase.send_packet_in", name="a_packet_in_for_the_controller_carries_exactly_the_requested_bytes")(_B18.packet_in_contents)
+
+
+# ... and the same for a frame an ACTION sends to the controller: buffered with its ingress port, packet-in with the action's
+# max_len (the C18 unit, shared)
+unit(P, target=_B18.SW + "SoftwareSwitchBase._output_packet (OFPP_CONTROLLER)",
+     name="output_to_the_controller_buffers_the_frame_with_its_ingress_port")(_B18.output_to_the_controller_buffers_the_frame_with_its_ingress_port)
+
+
+# 'lengths and checksums kept valid' on the emitted bytes rests on the header builders re-run on the rewritten packet objects:
+# the IPv4 builder for headers WITH options (total length counts the options, the checksum covers them) is the C14 unit, an
+# obligation of C12 too (seeded change C12_9 computed the total length from the minimal header size when re-packing)
+import contracts.c14_headers as _H14   # noqa
+from pyvc.api import UNITS as _UNITS
+for _u in list(_UNITS.get("C14", [])):
+  if _u.name.startswith("ipv4_with_") and _u.name.endswith("_option_bytes_udp"):
+    unit(P, target=_u.target, name="a_rewritten_" + _u.name + "_keeps_valid_lengths_and_checksum")(_u.fn)
